@@ -209,16 +209,27 @@ def main(tier, base_seed):
     if b.dead or g1.dead:
         raise common.HarnessFault("C18 worker died: %r" % ((b.dead or g1.dead)[0],))
     mism = [lo for lo, h in g1.chunks.items() if b.chunks.get(lo) != h]
+    gate_failures = []
     if mism:
-        raise common.HarnessFault("C18 determinism gate: chunk hashes differ at %s" % mism[:5])
-    log("[C18] determinism gate: %d runs executed twice (3 vs %d workers), all %d chunk hashes equal" % (gate_n, workers, len(g1.chunks)))
+        # State that leaks from one run into the next (a function-local static in the code under test) makes runs depend
+        # on what the process executed before.  A gate failure is never a verdict by itself: the candidate violations
+        # must pass their own reproduction gates (same plan twice, minimisation, fresh-process replay twice); if none
+        # does, the check ends as a harness fault.
+        gate_failures.append("C18 determinism gate: chunk hashes differ at %s" % mism[:5])
+        log("[C18] determinism gate FAILED for chunks %s: runs depend on process history" % mism[:5])
+    else:
+        log("[C18] determinism gate: %d runs executed twice (3 vs %d workers), all %d chunk hashes equal" % (gate_n, workers, len(g1.chunks)))
 
     results = []
     by_sig = {}
     for v in sorted(b.viol):
         by_sig.setdefault(v[3], v)
     for sig, v in list(by_sig.items())[:8]:
-        r = handle_violation(exe, base_seed, v)
+        try:
+            r = handle_violation(exe, base_seed, v)
+        except common.HarnessFault as e:
+            gate_failures.append(str(e))
+            continue
         k = common.match_known(PROP, r["signature"])
         if k:
             r["known"], r["what"] = True, k["what"]
@@ -247,7 +258,7 @@ def main(tier, base_seed):
         "faults_fired": faults,
         "probes_hit": probes,
         "ops_executed": ops,
-        "determinism_gate": {"runs_executed_twice": gate_n, "worker_counts": [3, workers], "chunk_hash_mismatches": 0},
+        "determinism_gate": {"runs_executed_twice": gate_n, "worker_counts": [3, workers], "chunk_hash_mismatches": len(mism)},
         "components": {"real": ["libImath ImathRandom.cpp (erand48 nrand48 drand48 lrand48 srand48 Rand32::nextf) built from /repo's working tree",
                                 "ImathRandom.h templates (Rand32, Rand48, solid/hollow/gaussSphereRand, gaussRand) compiled from the tree",
                                 "glibc rand48 family (reference)"],
@@ -264,6 +275,9 @@ def main(tier, base_seed):
         "single-threaded by design: POSIX rand48 itself is not thread-safe and the property makes no concurrency claim",
     ]
     unknown = [r for r in results if not r.get("known")]
+    if gate_failures and not unknown:
+        raise common.HarnessFault("; ".join(gate_failures[:3]))
+    coverage["reproduction_gate_failures"] = gate_failures[:5]
     common.write_evidence(PROP, tier, base_seed, coverage, assumptions, wall, len(unknown),
                           extra={"known_findings_reported": [r["signature"] for r in results if r.get("known")]})
     log("[C18] %d runs, %d steps, %d distinct interleavings, %d violating runs, %.1fs" % (nruns, b.steps, len(b.ih), len(b.viol), wall))
